@@ -114,6 +114,8 @@ pub fn run_lines(f: impl Fn(&[&str]) -> String) {
     let stdin = std::io::stdin();
     let stdout = std::io::stdout();
     let mut out = std::io::BufWriter::new(stdout.lock());
+    // VH_FLUSH=1: flush after every case, so that after a hang or abort the orchestrator knows the culprit
+    let flush_each = std::env::var("VH_FLUSH").map(|v| v == "1").unwrap_or(false);
     for line in stdin.lock().lines() {
         let line = line.unwrap();
         let parts: Vec<&str> = line.split_whitespace().collect();
@@ -125,6 +127,9 @@ pub fn run_lines(f: impl Fn(&[&str]) -> String) {
         match r {
             Ok(s) => writeln!(out, "{s}").unwrap(),
             Err(_) => writeln!(out, "panic").unwrap(),
+        }
+        if flush_each {
+            out.flush().unwrap();
         }
     }
     // coverage counters (evidence only)
